@@ -843,6 +843,10 @@ def run(ck: Checker) -> None:
     ck.guard("R-REG-PAIR", lambda: r_reg_pair(ck))
     ck.guard("R-REG-OWN", lambda: r_reg_who(ck))
     ck.guard("R-REG-PAIR", lambda: r_no_exc_local(ck))
+    from .c10 import r_reg_callers
+    ck.guard("R-REG-CALLERS", lambda: r_reg_callers(ck, ncls))
+    from . import state_rules as S3b
+    ck.guard("R-REG-PAIR", lambda: S3b.r_flag_pairing(ck, "R-REG-PAIR", (NODE,)))  # no library operation detaches the trees it is given (findall's synthetic root is removed alone)
     from . import state_rules as S3
     ck.guard("R-REG-OWN", lambda: S3.r_memo_keeps_alive(ck, "R-REG-OWN", ("pyoak.typing", NODE, "pyoak.types"), "a cache entry would keep nodes alive and registered"))
     from . import templates_rules as T_
